@@ -17,24 +17,24 @@ LEVEL_TEXT = (
 
 CHECKS = {
     "C02": dict(
-        rules="R02.1-R02.6",
-        what="every accepting return of find_cache_meta/validate_meta is dominated by a rejecting gate for each required meta field (or its named bypass); SCC freshness is the conjunction of its three tests (truth-table evaluation); State.is_fresh conjuncts; cached errors of fresh modules are replayed; stored and compared values of each gate field come from the same producer; the indirect-dependency visitor reaches every type component",
+        rules="R02.1-R02.6, R02.8",
+        what="every accepting return of find_cache_meta/validate_meta is dominated by a rejecting gate for each required meta field (or its named bypass); SCC freshness is the conjunction of its three tests (truth-table evaluation); State.is_fresh conjuncts; cached errors of fresh modules are replayed; stored and compared values of each gate field come from the same producer; the indirect-dependency visitor reaches every type component; the fast path and the import-cycle path of transitive_dep_hash select and hash the same dependencies",
         quant="edit histories with a run after every edit, in four store x format configurations",
         technique="CFG must-pass-through with polarity, abstract (truth-table) evaluation of the freshness flag, producer cross-check, component-coverage matrix",
         note="That the gate set is *sufficient* for every edit history is the behavioural part and is not decided. The serializer quadruples of CacheMeta/CacheMetaEx/State are decided by C11 (R11.1-R11.4).",
         design="DESIGN.md §4 C02",
     ),
     "C03": dict(
-        rules="R03.1-R03.3 (+R20.1 bound via C20)",
-        what="order of the re-processing pipeline in reprocess_nodes and of the propagation loop; type snapshots read every __eq__ field; component-coverage matrix of the astmerge / deps / astdiff type visitors",
+        rules="R03.1-R03.5 (+R20.1 bound via C20)",
+        what="order of the re-processing pipeline in reprocess_nodes and of the propagation loop; type snapshots read every __eq__ field; component-coverage matrix of the astmerge / deps / astdiff type visitors; the follow-imports walk queues every module found changed (never filtered by the set the finder marks); every daemon check response computes its status by main()'s predicate",
         quant="edit histories checked after every step",
         technique="CFG must-pass-through ordering, sibling cross-check (__eq__ fields vs snapshot reads), component-coverage matrix",
         note="Completeness of deps.py dependency generation per construct and of symbol snapshots is semantic and not decided. tables/R03.2.json and R03.3.json list the read deviants; entries marked (unproven) are informational.",
         design="DESIGN.md §4 C03",
     ),
     "C04": dict(
-        rules="R04.1-R04.4",
-        what="atomic temporary+os.replace publication and OSError containment in the file store; every MetadataStore.write result checked; no CacheMeta after a failed data write/getmtime; data before meta, provenance of the meta pair, dep_hashes before the meta write, commit after every write group; old meta_ex invalidated before a new meta becomes durable; find_cache_meta treats a missing meta_ex as a miss",
+        rules="R04.1-R04.6",
+        what="atomic temporary+os.replace publication and OSError containment in the file store; every MetadataStore.write result checked; no CacheMeta after a failed data write/getmtime; data before meta, provenance of the meta pair, dep_hashes before the meta write, commit after every write group; old meta_ex invalidated before a new meta becomes durable; find_cache_meta treats a missing meta_ex as a miss; a module's records share one shard of the sqlite store (names differ only after the first dot of the basename, which is all the shard key reads); the data write is skipped only after the stored data record was read and compared",
         quant="kill points and failing store operations",
         technique="CFG must-pass-through / reachability queries over the cache-writing functions, who-may-write rule",
         note="Behaviour of sqlite when killed inside commit() and OS-level durability are library/OS behaviour and are not decided. tables/R04.1.json, R04.2.json hold the tabled exceptions.",
@@ -42,15 +42,15 @@ CHECKS = {
     ),
     "C05": dict(
         rules="R05.1-R05.3",
-        what="every primitive bound to a literal C function name (~380 bindings) has a C declaration in mypyc/lib-rt of matching arity whose parameter/return types are ABI-compatible with the declared RPrimitives; declared error kinds agree with what the C body can return (ERR_NEVER vs `return NULL`, ERR_FALSE vs truth type, ERR_NEG_INT vs signed int); pass order of compile_scc_to_ir",
+        what="every primitive bound to a literal C function name (~380 bindings) has a C declaration in mypyc/lib-rt of matching arity whose parameter/return types are ABI-compatible with the declared RPrimitives; declared error kinds agree with what the C body can return (ERR_NEVER vs `return NULL`, ERR_FALSE vs truth type, ERR_NEG_INT vs signed int; ERR_NEVER vs returning the result of a fallible callee); bindings made through helper functions and literal loops are resolved; pass order of compile_scc_to_ir",
         quant="programs x argument values x optimisation levels x build modes",
         technique="cross-language table check: Python AST of the primitive registry against clang's JSON AST of lib-rt; CFG ordering of the pass pipeline",
         note="Nothing about the translation of any construct is decided. Capsule-API slots (object-like macros) and conditionally compiled functions are only checked for existence. Borrow/steal agreement with C bodies would need an ownership analysis of C and is declined.",
         design="DESIGN.md §4 C05",
     ),
     "C06": dict(
-        rules="R06.1-R06.3, R05.3",
-        what="per-Op agreement of sources()/set_sources()/stolen() and PatchVisitor; borrow flag honoured by code generation; who may create IncRef/DecRef and which visit methods the post-refcount passes override; pass order of compile_scc_to_ir",
+        rules="R06.1-R06.4, R05.3",
+        what="per-Op agreement of sources()/set_sources()/stolen() and PatchVisitor; borrow flag honoured by code generation; who may create IncRef/DecRef and which visit methods the post-refcount passes override; every emitter that initialises/traverses/clears/recycles instance storage covers the attributes of all classes in base_mro; pass order of compile_scc_to_ir",
         quant="function IR of all compiled programs, on every path",
         technique="sibling cross-check of the three declarations of each Op's operand set; who-may-create rule; CFG ordering of the pass pipeline",
         note="Reference-count balance of generated IR on every path needs the compiler to run on programs (translation validation by execution) and is not decided; the spill pass's balance argument is liveness-based and not decided.",
@@ -65,8 +65,8 @@ CHECKS = {
         design="DESIGN.md §4 C07",
     ),
     "C13": dict(
-        rules="R13.1-R13.4",
-        what="blockers never reach the ignore logic; suppressed-by-ignore implies recorded-as-used and nothing else records; who may append to the error map; exit status truth table over (message, non-note, blockers, install override) and its data-flow to sys.exit",
+        rules="R13.1-R13.5",
+        what="blockers never reach the ignore logic; suppressed-by-ignore implies recorded-as-used, only for enabled codes, and nothing else records; decision order of is_error_code_enabled (explicit disable, explicit enable, parent disabled); who may append to the error map; exit status truth table over (message, non-note, blockers, install override) and its data-flow to sys.exit",
         quant="programs x ignore placements x code selections",
         technique="CFG must-pass / reachability, guard chains, who-may-call, abstract evaluation of the exit-status assignments",
         note="Exactness of the delta for every program (origin spans, duplicate removal, note attachment) is value-level and not decided.",
@@ -81,8 +81,8 @@ CHECKS = {
         design="DESIGN.md §4 C08",
     ),
     "C14": dict(
-        rules="R14.1-R14.3",
-        what="both front ends can construct the same set of AST node classes; per node class the semantic attributes set at construction agree (branch-sensitive tracking); Errors.report clamps end positions before building ErrorInfo",
+        rules="R14.1-R14.4",
+        what="both front ends can construct the same set of AST node classes; per node class the semantic attributes set at construction agree (branch-sensitive tracking); Errors.report clamps end positions before building ErrorInfo; every statement list that becomes a block went through overload merging in both front ends and the native shortcut rests on a monotone function counter",
         quant="source files without type comments and their corruptions",
         technique="sibling cross-check of the two parser front ends over the resolved constructors; CFG must-pass for the position clamps",
         note="Equality of diagnostics between the parsers and columns lying inside the line are value-level and not decided.",
@@ -105,8 +105,8 @@ CHECKS = {
         design="DESIGN.md §4 C10",
     ),
     "C11": dict(
-        rules="R11.1-R11.5, R11.7-R11.10",
-        what="wire grammar of write equals wire grammar of read for 46 serializer classes and the helper pairs, down to librt primitives; field and flag label alignment; tag table integrity and dispatcher exhaustiveness; JSON key/attribute agreement and JSON==binary attribute sets; count/emit filter agreement; sorted iteration in interface serializers; order discipline (only sets may be written sorted); __eq__ fields and declared attributes covered by serialization",
+        rules="R11.1-R11.11",
+        what="wire grammar of write equals wire grammar of read for 46 serializer classes and the helper pairs, down to librt primitives; field and flag label alignment; tag table integrity and dispatcher exhaustiveness; JSON key/attribute agreement and JSON==binary attribute sets; count/emit filter agreement; sorted iteration in interface serializers; order discipline (only sets may be written sorted); __eq__ fields and declared attributes covered by serialization; fix-up covers every by-reference field; optional fields are encoded by an identity test against None",
         quant="symbols, types and flag combinations of all modules",
         technique="wire-grammar extraction (abstract interpretation of serializer bodies in evaluation order) and structural term comparison; sibling cross-checks",
         note="Trusted base: the librt.internal primitive pairs round-trip their argument; extract_symbol consumes one tagged object; CPython evaluation order. Value-level inverses (ARG_KINDS[int(x.value)], bytes.fromhex(x.hex())) are not decided. One known finding (symbol tables serialized in sorted order) is listed in known_findings.json.",
@@ -137,8 +137,8 @@ CHECKS = {
         design="DESIGN.md §4 C15",
     ),
     "C16": dict(
-        rules="R16.1-R16.4",
-        what="exception containment of the serve loop by may-raise summaries; status-file removal on every CFG exit of serve; per-connection reset of IPCServer framing state; frame consumption order in frame_from_buffer and writer/reader header agreement",
+        rules="R16.1-R16.5",
+        what="exception containment of the serve loop by may-raise summaries; status-file removal on every CFG exit of serve; per-connection reset of IPCServer framing state; frame consumption order in frame_from_buffer and writer/reader header agreement; request keys are membership-tested, **data reaches a command only after signature binding, a rejected stop does not exit",
         quant="client behaviours and stream segmentations",
         technique="interprocedural may-raise summaries + CFG must-pass-through / pairing queries",
         note="Trusted: the frozen standard-library may-raise table (sa/raises.py); POSIX branches only. Byte-level reassembly for every chunking is value-level and not decided.",
@@ -214,7 +214,7 @@ def build() -> dict:
         ],
         "checks": checks,
         "not_applicable": na,
-        "notes": "Exit codes of every check: 0 held (KNOWN-FINDING lines for listed findings), 1 VIOLATION, 2 ANALYSIS-ERROR (the analyser could not establish a fact; never a verdict on mypy). Genuine defects found and repaired are listed in known_findings.json with status fixed:<commit>.",
+        "notes": "The thorough tier of every check runs the quick rules and then a self-check: the property's seeded variants (sa/variants.json) and kept seeded changes (seeded/<id>/patch.diff) are applied to scratch copies of /repo's current tree outside /repo and /verif, and the evidence records how many were reported (recorded, not judged: SELFTEST-WARN for a miss, never a VIOLATION). Exit codes of every check: 0 held (KNOWN-FINDING lines for listed findings), 1 VIOLATION, 2 ANALYSIS-ERROR (the analyser could not establish a fact; never a verdict on mypy). Genuine defects found and repaired are listed in known_findings.json with status fixed:<commit>.",
     }
 
 
